@@ -803,6 +803,44 @@ fn cli_files(ctx: &Ctx) {
     let _ = Stdin::Null;
 }
 
+
+/// Raw key material of every length 0..=100 offered to the key containers and then USED: a wrong length must be an
+/// error value at construction or at use - never a panic further down (Diffie-Hellman, public-key derivation,
+/// encryption to / from such a key).
+fn raw_key_lengths(ctx: &Ctx) {
+    use kestrel_crypto::{PrivateKey, PublicKey};
+    let mut rng = Rng::fork(ctx.seed, "C09-rawkeys");
+    let good_sk = crate::kio::sk(&rng.arr32());
+    let good_pk = good_sk.to_public().unwrap();
+    for len in 0..=100usize {
+        let bytes = rng.bytes(len);
+        ctx.eval();
+        let r = crate::kio::guarded(|| {
+            let mut notes: Vec<String> = Vec::new();
+            if let Ok(sk) = PrivateKey::try_from(&bytes[..]) {
+                notes.push(format!("PrivateKey accepted {} bytes", len));
+                let _ = sk.to_public();
+                let _ = sk.diffie_hellman(&good_pk);
+                let _ = sk.clone();
+            }
+            if let Ok(pk) = PublicKey::try_from(&bytes[..]) {
+                notes.push(format!("PublicKey accepted {} bytes", len));
+                let _ = good_sk.diffie_hellman(&pk);
+                let mut out = Vec::new();
+                let _ = kestrel_crypto::encrypt::key_encrypt(&mut &b"x"[..], &mut out, &good_sk, &good_pk, &pk, None, None, None, kestrel_crypto::AsymFileFormat::V1);
+            }
+            notes
+        });
+        match r {
+            Err(p) => ctx.violation(&format!("C09:raw-key:panic:{}", panic_site(&p)), json!({"length": len, "bytes": hex_short(&bytes, 64)})),
+            Ok(_) => {
+                ctx.seen("raw key material of any length: error values only");
+                ctx.distinct(&format!("rawkey|{}", len));
+            }
+        }
+    }
+}
+
 pub fn run(ctx: &Ctx) {
     ctx.rule(
         "library surfaces (key_decrypt, pass_decrypt, noise_decrypt, both AEAD opens, key-string decoders, keyring parser) are offered: every prefix length of authentic inputs, every length \
@@ -817,6 +855,7 @@ pub fn run(ctx: &Ctx) {
     let only = std::env::var("KMON_C09_ONLY").unwrap_or_default();
     if only.is_empty() || only == "children" {
         run_children(ctx);
+        raw_key_lengths(ctx);
     }
     if only.is_empty() || only == "argv" {
         cli_argv(ctx);
